@@ -75,8 +75,8 @@ func loadPath(root string) (pemBlocks map[string][]byte, err error) {
 
 	pemBlocks = map[string][]byte{}
 	err = filepath.Walk(root, func(path string, info os.FileInfo, err error) error {
-		// check if the root directory exists
-		if _, ok := err.(*os.PathError); ok && path == root {
+		// a root directory which does not exist is an empty directory
+		if path == root && os.IsNotExist(err) {
 			return nil
 		}
 
